@@ -167,6 +167,34 @@ def write_json(path, obj):
     return path
 
 
+PINNED_SCRIPT = r'''
+import json, os, shutil, sys, tempfile, logging
+logging.disable(logging.CRITICAL)
+from supp.project import Project
+from supp.assistant import assist, location
+out = []
+for case in json.load(sys.stdin):
+    d = tempfile.mkdtemp(prefix='c04pin')
+    try:
+        for fn, t in case['files'].items():
+            open(os.path.join(d, fn), 'w').write(t)
+        main = os.path.join(d, 'main.py')
+        def call(p, c):
+            with p.check_changes():
+                try:
+                    return repr({'assist': assist, 'location': location}[c[0]](p, case['text'], tuple(c[1]), main)).replace(d, '')
+                except Exception as e:
+                    return 'raises ' + type(e).__name__
+        fresh = call(Project([d]), case['second'])
+        p = Project([d])
+        call(p, case['first'])
+        out.append(call(p, case['second']) != fresh)
+    finally:
+        shutil.rmtree(d, ignore_errors=True)
+json.dump(out, sys.stdout)
+'''
+
+
 def run(tier, replay=None):
     ck = core.Check('C04', tier)
     seed = core.seed()
@@ -297,6 +325,16 @@ def run(tier, replay=None):
         for j in jobs[:1] + jobs[-1:]:
             ck.sample({'file': j['filename'], 'sites': j['sites'][:6], 'orders': j['orders'][:3], 'fresh': byid[j['id']]['fresh'][:3]})
         ck.assumptions = ['queries are made through Flow.names_at on one analysis object (the entry point every API function uses)']
+        # pinned inputs of open findings (known_findings.json): two requests on one Project against the second request on a new one
+        pinned = [f for f in ck.findings if isinstance(f.get('input'), dict)]
+        if pinned and not replay:
+            p = core.run_repo_python(['-c', PINNED_SCRIPT], inp=json.dumps([f['input'] for f in pinned]).encode(), timeout=300)
+            if p.returncode != 0:
+                raise core.MachineryFailure('pinned C04 inputs: %s' % p.stderr.decode(errors='replace')[-1500:])
+            for f, differs in zip(pinned, json.loads(p.stdout.decode())):
+                if differs:
+                    ck.known(f['id'], f['what'])
+            ck.extra['pinned_open_findings_observed'] = len(pinned)
         return ck.finish()
     finally:
         shutil.rmtree(wd, ignore_errors=True)
